@@ -189,8 +189,6 @@ func (in *Interp) binop(op token.Token, xt types.Type, x, y Value, yt types.Type
 	panic(fmt.Sprintf("binop %v on %T (%v)", op, x, xt))
 }
 
-var undefCounter int
-
 func (in *Interp) conv(dst, src types.Type, x Value) Value {
 	ts := in.ts
 	ud, us := dst.Underlying(), src.Underlying()
@@ -226,7 +224,6 @@ func (in *Interp) conv(dst, src types.Type, x Value) Value {
 					}
 				}
 				// out of range: unspecified
-				undefCounter++
 				return ts.Var(fmt.Sprintf("undef%d_v%d", in.nextUndef(), dw), BV(dw))
 			}
 			tr := ts.FRTI(t, 0)
@@ -355,8 +352,8 @@ func (in *Interp) conv(dst, src types.Type, x Value) Value {
 }
 
 func (in *Interp) nextUndef() int {
-	undefCounter++
-	return undefCounter
+	in.undefN++
+	return in.undefN
 }
 
 func (in *Interp) symStrToRunes(v Str) Value {
